@@ -69,6 +69,23 @@ def run(prog, rep, tier, cfg):
                  m_rel('ne', ['C:::len', 'F:SectorClaim.maintain_claims', 'F:SectorClaim.drop_claims'], ['C:::len'], False),
                  m_rel('eq', ['C:::len', 'F:SectorClaim.maintain_claims', 'F:SectorClaim.drop_claims'], ['C:::len'], True))
     X.iter_guard('K6b', 'extend:claim-ids-distinct', VE, ins, DIST, 'a claim id declared twice for a sector => Err (before its size is added to the declared space)')
+    # the claim table built here is keyed by sector for the whole message, while each declaration's claims are compared with that
+    # declaration's own new expiration: so a sector must not be named by two declarations (or the table must be per declaration)
+    EI = X.fn('Actor::extend_sector_expiration_inner', MI)
+    once = False
+    for g in [VE] + list(prog.family(EI)):
+        for c in conds(g, prog.slicer):
+            A = c.A | (getattr(c, 'B', set()) or set())
+            pn = str(getattr(c, 'pred', '') or '')
+            if c.kind in ('pred', 'rel') and (pn.endswith(('BitField::contains_any', 'BitField::contains_all', '::insert', 'BitField::get', '::contains')) or has_atom(A, 'C:BitField::contains_any') or has_atom(A, 'C:::insert') or has_atom(A, 'C:BitField::get')) \
+                    and (has_atom(A, 'F:ValidatedExpirationExtension.sectors') or has_atom(A, 'F:ExpirationExtension2.sectors') and has_atom(A, 'F:SectorClaim.sector_number')):
+                # the test rejects: one of its arms reaches no success return
+                if any(not g.ok_returns_from([tb]) for tb in c.arms.values()):
+                    once = True
+    keyed = any(has_atom(prog.slicer.operand(VE, c.args[1]), 'F:ExpirationExtension2.new_expiration') or has_atom(prog.slicer.operand(VE, c.args[1]), 'C:Enumerate')
+                for c in VE.calls if (c.callee or '').endswith('::entry') and len(c.args) > 1)
+    rep.need('K6b', 'extend:sector-in-one-declaration', once or keyed,
+             'a sector named by two declarations of one message must be rejected (or the claim table keyed per declaration): the claims are compared with the first declaration\'s expiration only', X.loc(EI))
     for c in VE.calls:
         if callee_is('get_claims')(c):
             rep.need('K8', 'extend:claims-fetched', result_fate(VE, c) == 'try', 'registry lookup failure aborts', c.where)
